@@ -53,7 +53,16 @@ func VH_c17_import() {
 	v := &Vrf{Name: "v", ImportRt: m}
 	e1, ie1 := c17rt("ec1")
 	e2, ie2 := c17rt("ec2")
-	attrs := []bgp.PathAttributeInterface{bgp.NewPathAttributeOrigin(0), bgp.NewPathAttributeExtendedCommunities([]bgp.ExtendedCommunityInterface{e1, e2})}
+	ecs := []bgp.ExtendedCommunityInterface{e1, e2}
+	// a community that is no route target at all (Color, Encapsulation) may sit anywhere in the list
+	if pos := vChoice("foreign_community_position", 4); pos > 0 {
+		var foreign bgp.ExtendedCommunityInterface = bgp.NewColorExtended(vU32("color"))
+		if vBool("foreign_is_encapsulation") {
+			foreign = bgp.NewEncapExtended(bgp.TUNNEL_TYPE_VXLAN)
+		}
+		ecs = append(ecs[:pos-1:pos-1], append([]bgp.ExtendedCommunityInterface{foreign}, ecs[pos-1:]...)...)
+	}
+	attrs := []bgp.PathAttributeInterface{bgp.NewPathAttributeOrigin(0), bgp.NewPathAttributeExtendedCommunities(ecs)}
 	p := &Path{info: &originInfo{source: localSource}, pathAttrs: attrs, family: bgp.RF_IPv4_VPN}
 	want := false
 	for _, ie := range [][4]uint64{ie1, ie2} {
@@ -192,5 +201,67 @@ func VH_c17_delete_vrf() {
 	}
 	wd := tbl.deletePathsByVrf(&Vrf{Name: "v", Rd: rdV})
 	vAssert(len(wd) == 1 && wd[0].IsWithdraw && wd[0].GetNlri() == own.GetNlri(), "deleting a VRF does not withdraw exactly the routes originated in it")
+	vReach("end")
+}
+
+// the candidate lookup of RT Constraint over several families: TableManager.GetPathsByRT returns the
+// union over the families asked for - every stored route carrying the target, each once
+func VH_c17_paths_by_rt() {
+	fams := []bgp.Family{bgp.RF_IPv4_VPN, bgp.RF_IPv6_VPN, bgp.RF_EVPN}
+	m := NewTableManager(c14logger(), fams)
+	rtA := bgp.NewTwoOctetAsSpecificExtended(bgp.EC_SUBTYPE_ROUTE_TARGET, 65000, 100, true)
+	rtB := bgp.NewTwoOctetAsSpecificExtended(bgp.EC_SUBTYPE_ROUTE_TARGET, 65000, 200, true)
+	rd := bgp.NewRouteDistinguisherTwoOctetAS(65000, 1)
+	n4, _ := bgp.NewLabeledVPNIPAddrPrefix(netip.PrefixFrom(netip.AddrFrom4([4]byte{10, 1, 0, 0}), 16), *bgp.NewMPLSLabelStack(100), rd)
+	n6, _ := bgp.NewLabeledVPNIPAddrPrefix(netip.PrefixFrom(netip.AddrFrom16([16]byte{0x20, 0x01, 0x0d, 0xb8, 1}), 48), *bgp.NewMPLSLabelStack(100), rd)
+	n4b, _ := bgp.NewLabeledVPNIPAddrPrefix(netip.PrefixFrom(netip.AddrFrom4([4]byte{10, 2, 0, 0}), 16), *bgp.NewMPLSLabelStack(100), rd)
+	type cand struct {
+		fam  bgp.Family
+		nlri bgp.NLRI
+	}
+	cands := []cand{{bgp.RF_IPv4_VPN, n4}, {bgp.RF_IPv6_VPN, n6}, {bgp.RF_IPv4_VPN, n4b}}
+	var stored []*Path
+	var hasA []bool
+	for i, c := range cands {
+		sel := vChoice("route_targets", 4) // not stored, A, B, A+B
+		if sel == 0 {
+			continue
+		}
+		var ecs []bgp.ExtendedCommunityInterface
+		if sel&1 != 0 {
+			ecs = append(ecs, rtA)
+		}
+		if sel&2 != 0 {
+			ecs = append(ecs, rtB)
+		}
+		attrs := []bgp.PathAttributeInterface{bgp.NewPathAttributeOrigin(0), bgp.NewPathAttributeExtendedCommunities(ecs)}
+		p := &Path{info: &originInfo{nlri: c.nlri, nlriString: c.nlri.String(), source: c02srcs[0]}, pathAttrs: attrs, family: c.fam, remoteID: uint32(i)}
+		m.Update(p)
+		stored = append(stored, p)
+		hasA = append(hasA, sel&1 != 0)
+	}
+	asked := fams
+	if vBool("only_vpnv4_asked") {
+		asked = fams[:1]
+	}
+	got := m.GetPathsByRT(rtA, asked)
+	want := 0
+	for i, p := range stored {
+		if !hasA[i] || (len(asked) == 1 && p.GetFamily() != bgp.RF_IPv4_VPN) {
+			continue
+		}
+		want++
+		n := 0
+		for _, g := range got {
+			if g == p {
+				n++
+			}
+		}
+		vAssert(n == 1, "a stored route carrying the target is missing from (or twice in) the candidates of the families asked for")
+		if p.GetFamily() == bgp.RF_IPv6_VPN {
+			vReach("two_families")
+		}
+	}
+	vAssert(len(got) == want, "the candidates hold a route that does not carry the target or is of a family not asked for")
 	vReach("end")
 }
